@@ -233,7 +233,7 @@ func (c *Ctx) simpSx(n *sx) *sx {
 			}
 		}
 	case "select":
-		if len(n.kids) == 3 {
+		if len(n.kids) == 3 && os.Getenv("GOVC_NOFWD") == "" {
 			if r := c.forwardSelect(n.kids[1], n.kids[2]); r != nil {
 				return r
 			}
